@@ -396,6 +396,54 @@ CONST_WORDS = ["Allegro", "Andante", "Adagio", "legato", "a tempo", "Presto", "d
 PLAIN_WORDS = ["spaghetti", "Zzz 12"]
 
 
+TEMPO_UNITS = ["q", "q", "q", None, "h", "e", "quarter", "half", "eighth", "16th", "32nd", "64th", "128th", "256th", "whole", "breve", "long"]
+BEAT_PERIODS = [0.45, 0.35, 0.7, 0.9, 1.1, 0.65, 0.55, 0.33, 0.47, 1.3, 0.23, 0.77]
+
+
+def gen_tempo(rng):
+    """(bpm, unit) of a tempo mark.  The value written is the quarter tempo bpm x unit factor x dot factor as a decimal text,
+    so the dimension that matters is HOW MANY DIGITS that float needs and how large / small it is:
+    metronome numbers; whole numbers stored as floats; one to six decimals; tempi computed from a beat period or from MIDI
+    microseconds per quarter (60 / 0.45 = 133.33333333333334: 17 significant digits); arbitrary doubles; whole numbers of
+    seven and more digits, below and above 2**53; large non-whole values; values below 1 and below 1e-4 (repr switches to
+    exponent notation there); zero; every unit name with zero to three dots (factors 1/64 ... 16 x 1.875: a two-decimal
+    metronome number becomes a long binary fraction)."""
+    r = rng.random()
+    if r < 0.22:
+        bpm = rng.choice([120, 60, 72, 50, 100, 80, 66, 132, 63, 55, 77, 66.5, 90.25, 47.25, 62.5])
+    elif r < 0.30:
+        bpm = float(rng.randint(20, 300))  # a whole number stored as a float
+    elif r < 0.42:
+        bpm = round(rng.uniform(20, 300), rng.randint(1, 6))  # metronome value with 1-6 decimals (100.12345)
+    elif r < 0.56:
+        if rng.random() < 0.5:
+            bpm = 60 / rng.choice(BEAT_PERIODS)  # from a beat period in seconds
+        else:
+            bpm = 6e7 / rng.randint(150000, 2000000)  # from MIDI microseconds per quarter
+    elif r < 0.68:
+        bpm = rng.uniform(1, 400)  # any double: up to 17 significant digits
+    elif r < 0.76:
+        bpm = rng.choice([1234567, 10 ** 6 + 1, 2 ** 24 + 1, 987654321, 2 ** 53 - 1, 2 ** 53 + 2, 10 ** 15 + 3, 123456789012345678])
+        if rng.random() < 0.4:
+            bpm = rng.randint(10 ** 6, 10 ** 12)
+        if rng.random() < 0.5:
+            bpm = float(bpm)
+    elif r < 0.82:
+        bpm = rng.uniform(1, 10) * 10 ** rng.randint(3, 14)  # large, not whole
+    elif r < 0.86:
+        bpm = float(rng.randint(1, 9999) * 10 ** rng.randint(13, 18)) + rng.choice([0.0, 2.0 ** 54])  # whole, beyond 2**53
+    elif r < 0.93:
+        bpm = rng.uniform(1, 10) * 10 ** -rng.randint(1, 4)  # below 1
+    elif r < 0.985:
+        bpm = rng.choice([1e-05, 1.5e-05, 2.5e-07, rng.uniform(1, 10) * 10 ** -rng.randint(5, 12)])  # repr uses an exponent
+    else:
+        bpm = rng.choice([0, 0.0])
+    unit = rng.choice(TEMPO_UNITS)
+    if unit is not None and rng.random() < 0.3:
+        unit += "." * rng.randint(1, 3)
+    return bpm, unit
+
+
 def gen_extras(rng, d, nstaves):
     """directions, tempi, repeats, endings, barline fermatas, pedals at time points of the part"""
     ex = d["extras"]
@@ -435,8 +483,7 @@ def gen_extras(rng, d, nstaves):
         t = rng.choice([m[0] for m in meas] + inner[:1])
         if t not in used_t:
             used_t.add(t)
-            bpm, unit = rng.choice([(120, "q"), (60, "q"), (72, None), (50, "h"), (100, "e"), (80, "q."), (66, "h."), (132, "q"),
-                                    (66.5, "q"), (100, "e."), (63, "16th"), (90.25, "h"), (55, "q.."), (77, "eighth")])
+            bpm, unit = gen_tempo(rng)
             ex.append(["Tempo", t, None, {"bpm": bpm, "unit": unit}])
     if len(meas) >= 2 and r() < 0.35:
         i = rng.randrange(len(meas))
@@ -466,6 +513,55 @@ def gen_extras(rng, d, nstaves):
             ex.append(["ChordSymbol", rng.choice(inner), None, {"root": rng.choice("CDEFGAB"), "kind": rng.choice(["maj7", "m", "7", "dim"])}])
     if r() < 0.01:
         ex.append(["Words", rng.choice(inner), None, {"text": rng.choice(PLAIN_WORDS)}])
+
+
+def gen_numeric(rng):
+    """one plain voice, but every NUMBER the exporter prints is taken from the wide end of its range: a tempo mark in every
+    measure (gen_tempo), divisions up to seven digits (durations, backup and forward of millions of ticks), measure names of
+    many digits, multi-digit fingerings and ending numbers, octaves 0-9, time signatures with large terms"""
+    q = rng.choice([1, 4, 480, 768, 960, 10080, 15360, 1209600, 3628800])
+    beats, bt = rng.choice([(4, 4), (3, 4), (12, 8), (17, 16), (2, 2), (33, 32), (7, 4), (128, 128)])
+    while (4 * beats * q) % bt:
+        q *= 2
+    ln = 4 * beats * q // bt
+    nm = rng.randint(2, 6)
+    base = rng.choice([1, 98, 999, 123456, 1234567, 10 ** 9 + 7])
+    d = {"id": "P1", "name": "numbers", "abbr": None, "divs": q, "qd": [], "ts": [[0, beats, bt]],
+         "ks": [[0, rng.randint(-7, 7), None]], "clefs": [[0, 1, "G", 2, 0]], "measures": [], "notes": [], "slurs": [],
+         "tuplets": [], "extras": [], "pages": True, "family": "numeric"}
+    nid = 0
+    for m in range(nm):
+        t0 = m * ln
+        d["measures"].append([t0, t0 + ln, m + 1, str(base + m)])
+        bpm, unit = gen_tempo(rng)
+        d["extras"].append(["Tempo", t0, None, {"bpm": bpm, "unit": unit}])
+        if m > 0 and rng.random() < 0.3:
+            beats2, bt2 = rng.choice([(4, 4), (3, 4), (12, 8), (17, 16), (33, 32), (128, 128)])
+            if (4 * beats2 * q) % bt2 == 0 and 4 * beats2 * q // bt2 == ln:
+                d["ts"].append([t0, beats2, bt2])
+        pos = t0
+        # cuts on the grid of sixteenths (an arbitrary number of ticks makes estimate_symbolic_duration search for minutes)
+        g = q // 4 if q % 4 == 0 else q
+        cuts = sorted(set([t0, t0 + ln] + [t0 + g * rng.randrange(1, ln // g) for _ in range(rng.randint(0, 2)) if ln // g > 1]))
+        for a, b in zip(cuts, cuts[1:]):
+            nid += 1
+            if rng.random() < 0.2:
+                d["notes"].append({"id": "r%d" % nid, "t": a, "dur": b - a, "kind": "rest", "voice": 1, "staff": 1})
+            else:
+                n = {"id": "n%d" % nid, "t": a, "dur": b - a, "kind": "note", "step": rng.choice(STEPS),
+                     "alter": rng.choice([0, 0, 1, -1, 2, -2, 3, -3, None]), "oct": rng.randint(0, 9), "voice": rng.choice([1, 1, 7, 16]), "staff": 1}
+                if rng.random() < 0.3:
+                    n["fing"] = [rng.choice([0, 5, 10, 12, 123, 1234567])]
+                d["notes"].append(n)
+    v = set(n["voice"] for n in d["notes"])
+    if len(v) > 1:
+        for n in d["notes"]:
+            n["voice"] = 1
+    if nm >= 3 and rng.random() < 0.4:
+        d["extras"].append(["Repeat", 0, 2 * ln, {}])
+        d["extras"].append(["Ending", ln, 2 * ln, {"number": rng.choice([1, 12, 1234567])}])
+        d["extras"].append(["Ending", 2 * ln, 3 * ln, {"number": 2}])
+    return {"k": "score", "parts": [d], "struct": [0]}
 
 
 def gen_score(rng, big=False):
@@ -1243,6 +1339,8 @@ def reader_streams(ev, wms):
                 scratch = S.Part("scratch", quarter_duration=1)
                 I._handle_sound(el, 0, scratch)
                 ts = list(scratch.iter_all(S.Tempo))
+                if "e" in (el.get("tempo") or "").lower():
+                    continue  # exponent notation: not modelled
                 ev.requests.append("rsound " + " ".join(xml_tokens(el)))
                 ev.impl.append(tempo_text(ts[0].bpm) if ts else "-")
             elif el.tag == "attributes":
@@ -1438,6 +1536,9 @@ def cases(rng, tier):
     for fn in fixtures():
         yield {"k": "fixture", "file": fn}
     n = {"quick": 600, "thorough": 20000, "search": 1500}.get(tier, 600)
+    nn = {"quick": 60, "thorough": 1500, "search": 150}.get(tier, 60)
+    for i in range(nn):
+        yield gen_numeric(rng)
     for i in range(n):
         yield gen_score(rng, big=(i % 5 == 0))
 
